@@ -327,14 +327,16 @@ type EntSpec struct {
 	Note     string   `json:"note,omitempty"`
 	Ref      *string  `json:"ref,omitempty"`
 	IsSystem bool     `json:"isSystem,omitempty"`
-	Extra    string   `json:"extra,omitempty"` // child stores only
-	TagV     *string  `json:"tag,omitempty"`   // tags = {"t": TagV} when set
+	Migrate  bool     `json:"migrate,omitempty"` // BaseExtEntity.Migrate: keep the payload's timestamps on create
+	Extra    string   `json:"extra,omitempty"`   // child stores only
+	TagV     *string  `json:"tag,omitempty"`     // tags = {"t": TagV} when set
 }
 
 func (s EntSpec) ToEnt(typ, id string) *Ent {
 	e := &Ent{Type: typ, Name: s.Name, Alias: s.Alias, Roles: append([]string(nil), s.Roles...), Note: s.Note, Ref: s.Ref}
 	e.Id = id
 	e.IsSystem = s.IsSystem
+	e.Migrate = s.Migrate
 	if s.TagV != nil {
 		e.Tags = map[string]interface{}{"t": *s.TagV}
 	}
@@ -523,6 +525,12 @@ func (m *Model) checkWrite(store, id string, old, next *MEnt, system bool) []str
 			} else if len(newA) > 32768 {
 				causes = append(causes, ErrStorage)
 			}
+		}
+	}
+	for _, r := range next.Roles {
+		if len(r)+1 > 32768 && (old == nil || fmt.Sprintf("%q", old.Roles) != fmt.Sprintf("%q", next.Roles)) {
+			causes = append(causes, ErrStorage)
+			break
 		}
 	}
 	if sc.RolesIndex {
